@@ -2,7 +2,7 @@
    world = list of per-rank packages (receive side: (source, count) in buffer order; send side:
    (destination, local indices) in send-buffer order), as dumped from / constructed like ParComm. *)
 From Coq Require Import List Arith Lia Bool Permutation.
-From Raptor Require Import Base.Sums Dist.Comm Dist.CommProofs.
+From Raptor Require Import Base.Sums Dist.Comm Dist.CommProofs Dist.CommBuildProofs.
 Import ListNotations.
 
 (* (i) forward exchange, any payload type A (int, double, blocks, sparse rows): one check on the vector of
@@ -48,7 +48,33 @@ Theorem C03_reverse_sum_is_adjoint :
 Proof. intros. apply (reverse_sum_spec F zero one add mul sub opp Fth); assumption. Qed.
 End Sum.
 
+(* (iii) the CONSTRUCTION: for every partition (monotone first_cols starting at 0, any block sizes incl. empty
+   ranks), every family of strictly increasing in-range column maps and EVERY arrival order sigma of the
+   any-source probes, the package built like ParComm(partition, off_proc_column_map) passes the forward
+   check; with (i) it therefore delivers the owners' values for every vector and payload type. *)
+Theorem C03_construction_passes_forward_check :
+  forall (fc : list nat) (colmaps : list (list nat))
+         (sigma : nat -> list (nat * list nat) -> list (nat * list nat)),
+  length fc = S (length colmaps) -> nondec fc -> nth 0 fc 0 = 0 ->
+  (forall p, p < length colmaps -> increasing (nth p colmaps [])) ->
+  (forall p c, p < length colmaps -> In c (nth p colmaps []) -> c < last fc 0) ->
+  (forall q l, Permutation (sigma q l) l) ->
+  fwd_ok (build_world fc colmaps sigma) (block_ids fc colmaps) colmaps (last fc 0) = true.
+Proof. exact build_world_fwd_ok. Qed.
+
+Lemma C03_construction_nonvacuous :
+  let fc := [0; 3; 5; 9] in let colmaps := [[3; 8]; [0; 1; 5]; [2; 4]] in
+  length fc = S (length colmaps) /\ nondec fc /\ nth 0 fc 0 = 0 /\
+  (forall p, p < length colmaps -> increasing (nth p colmaps [])) /\
+  (forall p c, p < length colmaps -> In c (nth p colmaps []) -> c < last fc 0).
+Proof.
+  simpl. repeat split; try lia.
+  - intros p Hp. destruct p as [|[|[|p]]]; simpl; try lia; repeat split; lia.
+  - intros p c Hp Hc. destruct p as [|[|[|p]]]; simpl in *; try lia; intuition lia.
+Qed.
+
 Print Assumptions C03_forward_delivers_owner_values.
 Print Assumptions C03_forward_natural.
 Print Assumptions C03_reverse_folds_contributions.
 Print Assumptions C03_reverse_sum_is_adjoint.
+Print Assumptions C03_construction_passes_forward_check.
